@@ -11,6 +11,7 @@ ALL_CHAN = ["spsc_b", "spsc_b_async", "mpsc_b", "mpsc_b_async", "mpsc_u", "mpsc_
             "mpmc_rv_async", "oneshot"]
 BOUNDED = ["spsc_b", "spsc_b_async", "mpsc_b", "mpsc_b_async", "mpmc_b", "mpmc_b_async", "spsc_rv", "mpsc_rv", "mpmc_rv",
            "spsc_rv_async", "mpsc_rv_async", "mpmc_rv_async", "oneshot"]
+ALL_PLUS = ALL_CHAN + ["spmc_b", "spmc_b_async"]   # point-to-point flavours + the broadcast ring
 BATCH_MP = ["mpsc_b", "mpsc_b_async", "mpmc_b", "mpmc_b_async", "mpsc_u", "mpmc_u"]
 ASYNC = [f for f in ALL_CHAN if f.endswith("_async")] + ["oneshot"]
 
@@ -96,14 +97,21 @@ def validate_chan(rep, path, label, jobs=None):
     return r
 
 
+def _phase(rep, label, t0, t1, t2):
+    rep.extra.setdefault("phases", []).append({"label": label, "drive_s": round(t1 - t0, 1), "validate_s": round(t2 - t1, 1)})
+
+
 def chan_seq(rep, flavours, programs, ops, caps, profiles, seed_off=0, label="chan-seq"):
+    t0 = time.time()
     wd = C.workdir()
     out = os.path.join(wd, "%s_%d.ndjson" % (label, time.time_ns()))
     st = C.run_fv(["chan-seq", "--flavours", ",".join(flavours), "--programs", programs, "--ops", ops, "--seed",
                    rep.seed + seed_off, "--caps", ",".join(map(str, caps)), "--profiles", ",".join(profiles),
                    "--out", out], timeout=1800)
     rep.extra.setdefault("driver_stats", []).append(dict(st, driver=label))
+    t1 = time.time()
     r = validate_chan(rep, out, label)
+    _phase(rep, label, t0, t1, time.time())
     os.unlink(out)
     return r
 
@@ -111,6 +119,7 @@ def chan_seq(rep, flavours, programs, ops, caps, profiles, seed_off=0, label="ch
 def chan_sched(rep, flavours, runs, caps, shapes=("drain", "leave", "prefill"), strategies=("random", "pct"), seed_off=0,
                label="chan-sched"):
     """Multi-thread scenarios under the cooperative scheduler (yield point at every instrumented atomic / lock)."""
+    t0 = time.time()
     wd = C.workdir()
     out = os.path.join(wd, "%s_%d.ndjson" % (label, time.time_ns()))
     st = C.run_fv(["chan-sched", "--flavours", ",".join(flavours), "--runs", runs, "--seed", rep.seed + seed_off,
@@ -120,7 +129,9 @@ def chan_sched(rep, flavours, runs, caps, shapes=("drain", "leave", "prefill"), 
     if st.get("stuck", 0) or st.get("step_limit", 0):
         rep.inconclusive.append("%s: %d runs stuck in the OS, %d hit the step limit (not judged)" % (
             label, st.get("stuck", 0), st.get("step_limit", 0)))
+    t1 = time.time()
     r = validate_chan(rep, out, label)
+    _phase(rep, label, t0, t1, time.time())
     os.unlink(out)
     return r
 
@@ -131,6 +142,7 @@ def chan_sys(rep, flavours, d, smax, caps=(1,), shapes=("drain",), seeds=(1,), p
     change points (thread, thread-local step <= smax) is run (the PCT schedule space, enumerated instead of sampled).
     The program is fixed per scenario, so equal histories are validated once."""
     import concurrent.futures as cf
+    t0 = time.time()
     parts = max(1, int(os.environ.get("VERIF_JOBS", "8")))
     wd = C.workdir()
     base = os.path.join(wd, "%s_%d" % (label, time.time_ns()))
@@ -169,7 +181,9 @@ def chan_sys(rep, flavours, d, smax, caps=(1,), shapes=("drain",), seeds=(1,), p
     with open(path, "w") as f:
         for h in uniq:
             f.write("\n".join(h) + "\n")
+    t1 = time.time()
     r = validate_chan(rep, path, label)
+    _phase(rep, label, t0, t1, time.time())
     os.unlink(path)
     return r
 
@@ -198,9 +212,9 @@ def n(tier, q, t):
 
 
 def C01(rep):
-    chan_mc(rep, rep.tier)
-    chan_seq(rep, ALL_CHAN, n(rep.tier, 24, 400), 60, [1, 2, 3, 5], ["mix", "batch", "async"], label="chan-seq")
-    chan_sched(rep, ALL_CHAN, n(rep.tier, 40, 1500), [1, 2], seed_off=11)
+    chan_mc(rep, rep.tier, kinds=("q", "rv", "os", "bc"))
+    chan_seq(rep, ALL_PLUS, n(rep.tier, 24, 400), 60, [1, 2, 3, 5], ["mix", "batch", "async"], label="chan-seq")
+    chan_sched(rep, ALL_PLUS, n(rep.tier, 40, 1500), [1, 2], seed_off=11)
     # batch senders racing for runs of slots at the edge of the window (overshoot / tombstone paths)
     chan_sched(rep, BATCH_MP, n(rep.tier, 60, 1500), [1, 2, 3], shapes=("batchrace",), strategies=("pct", "random", "pct5"),
                seed_off=12, label="chan-sched-batchrace")
@@ -238,7 +252,7 @@ def C05(rep):
 def C02(rep):
     chan_mc(rep, rep.tier)
     # long programs force ring wrap, chunk reuse and slab recycling
-    chan_seq(rep, [f for f in ALL_CHAN if "rv" not in f and f != "oneshot"], n(rep.tier, 12, 120), 400, [1, 3, 5, 7],
+    chan_seq(rep, [f for f in ALL_PLUS if "rv" not in f and f != "oneshot"], n(rep.tier, 12, 120), 400, [1, 3, 5, 7],
              ["batch", "mix"], seed_off=101, label="chan-seq-long")
     rep.assumptions += CHAN_ASSUME
 
@@ -246,14 +260,15 @@ def C02(rep):
 def C03(rep):
     chan_mc(rep, rep.tier)
     chan_seq(rep, BOUNDED, n(rep.tier, 24, 400), 70, [1, 2, 3, 4], ["mix", "batch"], seed_off=202, label="chan-seq-bounded")
-    chan_sched(rep, BOUNDED, n(rep.tier, 60, 2000), [1, 2, 3], shapes=("prefill", "drain"), seed_off=22)
+    chan_sched(rep, BOUNDED, n(rep.tier, 36, 2000), [1, 2, 3], shapes=("prefill", "drain"), seed_off=22)
     # more parked receivers / pending futures than capacity, non-power-of-two capacities first
     chan_seq(rep, [f for f in BOUNDED if f.endswith("_async")], n(rep.tier, 12, 300), 70, [3, 1, 5, 2], ["parked"],
              seed_off=203, label="chan-seq-parked")
     chan_sched(rep, ["mpmc_b", "mpmc_b_async", "mpmc_rv", "mpmc_rv_async"], n(rep.tier, 45, 1500), [3, 1, 2],
                shapes=("manyrx",), strategies=("pct", "random", "pct5"), seed_off=23, label="chan-sched-manyrx")
-    chan_sched(rep, [f for f in BATCH_MP if "_b" in f], n(rep.tier, 45, 1500), [1, 2, 3], shapes=("batchrace",),
-               strategies=("pct", "random", "pct5"), seed_off=24, label="chan-sched-batchrace")
+    if rep.tier != "quick":   # (quick: batchrace runs under C01)
+        chan_sched(rep, [f for f in BATCH_MP if "_b" in f], 1500, [1, 2, 3], shapes=("batchrace",),
+                   strategies=("pct", "random", "pct5"), seed_off=24, label="chan-sched-batchrace")
     t = rep.tier
     chan_sys(rep, ["mpsc_b", "mpmc_b"] + ([] if t == "quick" else ["mpsc_b_async", "mpmc_b_async"]), 3, n(t, 10, 12),
              caps=n(t, (2,), (2, 3)), shapes=("prefill",), seeds=(1, 2, 3, 4), label="chan-sys-prefill")
@@ -262,8 +277,12 @@ def C03(rep):
 
 def C04(rep):
     chan_mc(rep, rep.tier)
-    chan_seq(rep, ALL_CHAN, n(rep.tier, 24, 400), 60, [1, 2, 5], ["close", "teardown"], seed_off=303, label="chan-seq-close")
-    chan_sched(rep, ALL_CHAN, n(rep.tier, 40, 1500), [1, 2], shapes=("leave", "drain"), seed_off=33)
+    chan_seq(rep, ALL_PLUS, n(rep.tier, 36, 600), 60, [1, 2, 5], ["close", "teardown", "life"], seed_off=303, label="chan-seq-close")
+    chan_sched(rep, ALL_PLUS, n(rep.tier, 40, 1500), [1, 2], shapes=("leave", "drain"), seed_off=33)
+    add_mc(rep, mc_cached("topic", "MC_TopicA", "MC_TopicA_quick.cfg", ["TopicA.tla"], timeout=1800))
+    topic_part(rep, n(rep.tier, 60, 1000), seed_off=3434)
+    topic_part(rep, n(rep.tier, 300, 4000), seed_off=3535, mode="topic-thr")
+    rep.assumptions += TOPIC_ASSUME
     t = rep.tier
     chan_sys(rep, ["mpsc_b", "mpmc_b", "mpsc_u", "mpmc_rv", "spsc_b", "oneshot"] +
              ([] if t == "quick" else ["mpmc_u", "mpsc_rv", "spsc_rv", "mpsc_b_async", "mpmc_b_async"]), 3, n(t, 8, 10),
@@ -285,9 +304,9 @@ def C06(rep):
 
 def C09(rep):
     chan_mc(rep, rep.tier)
-    chan_seq(rep, ALL_CHAN, n(rep.tier, 24, 400), 50, [1, 2, 5], ["teardown", "batch", "async"], seed_off=505,
+    chan_seq(rep, ALL_PLUS, n(rep.tier, 32, 500), 50, [1, 2, 5], ["teardown", "batch", "async", "life"], seed_off=505,
              label="chan-seq-teardown")
-    chan_sched(rep, ALL_CHAN, n(rep.tier, 30, 1000), [1, 2], shapes=("leave",), seed_off=55)
+    chan_sched(rep, ALL_PLUS, n(rep.tier, 30, 1000), [1, 2], shapes=("leave",), seed_off=55)
     t = rep.tier
     chan_sys(rep, ["mpsc_b", "mpmc_b", "mpmc_rv", "mpsc_u"] + ([] if t == "quick" else ["mpmc_u", "mpsc_rv", "spsc_b", "spsc_rv"]),
              3, 8, shapes=("leave",), seeds=n(t, (3, 4), (3, 4, 5, 6)), items=2, label="chan-sys-teardown")
@@ -300,37 +319,57 @@ def C07(rep):
     chan_seq(rep, bc, n(rep.tier, 60, 800), 70, [1, 2, 3, 5], ["mix", "batch", "close", "async"], seed_off=808, label="spmc-seq")
     chan_sched(rep, bc, n(rep.tier, 120, 3000), [1, 2, 3], seed_off=909, label="spmc-sched")
     t = rep.tier
-    chan_sys(rep, bc, 3, n(t, 8, 10), caps=(1, 2), producers=1, consumers=2, items=2, shapes=n(t, ("drain",), ("drain", "leave")),
+    chan_sys(rep, bc, 3, n(t, 12, 14), caps=(1, 2), producers=1, consumers=2, items=2, shapes=n(t, ("drain",), ("drain", "leave")),
              label="chan-sys-spmc")
     rep.assumptions += CHAN_ASSUME + ["broadcast payloads are cloned per receiver; only the stored original's destruction is observed (at most once)"]
 
 
-def C08(rep):
-    add_mc(rep, mc_cached("topic", "MC_TopicA", "MC_TopicA_quick.cfg" if rep.tier == "quick" else "MC_TopicA_full.cfg",
-                          ["TopicA.tla"], timeout=1800))
+def topic_part(rep, programs, seed_off=1212, mode="topic-seq", extra=(), label=None):
+    """Topic histories (driver `mode`) validated against TopicA / TopicTrace."""
+    label = label or mode
     known = C.load_known()
     kf = [x["dev"] for x in known["findings"] if x.get("spec") == "topic"]
     wd = C.workdir()
     out = os.path.join(wd, "topic_%d.ndjson" % time.time_ns())
-    st = C.run_fv(["topic-seq", "--programs", n(rep.tier, 120, 2000), "--ops", 70, "--seed", rep.seed + 1212,
-                   "--caps", "1,2,3", "--out", out], timeout=3000)
-    rep.extra.setdefault("driver_stats", []).append(dict(st, driver="topic-seq"))
+    t0 = time.time()
+    st = C.run_fv([mode, "--programs", programs, "--ops", 70, "--seed", rep.seed + seed_off,
+                   "--caps", "1,2,3", "--out", out] + list(extra), timeout=3000)
+    rep.extra.setdefault("driver_stats", []).append(dict(st, driver=label))
     hs = C.split_histories(out)
+    t1 = time.time()
     r = C.validate_histories(os.path.join(C.SPECS, "topic"), "TopicTrace", "TopicTrace.cfg", hs, kf_for=lambda h: kf)
+    _phase(rep, label, t0, t1, time.time())
     rep.validated += r["validated"]
     rep.accepted += r["accepted"]
     for k in r["known"]:
         for d in k["devs"]:
-            rep.known.append({"finding": d, "flavour": json.loads(hs[k["history"]][0]).get("fl"), "driver": "topic-seq", "spec": "topic"})
+            rep.known.append({"finding": d, "flavour": json.loads(hs[k["history"]][0]).get("fl"), "driver": label, "spec": "topic"})
+    for u in r.get("undecided", []):
+        rep.inconclusive.append("%s: history %d not decided (%s)" % (label, u["history"], u.get("why", "second phase timed out")))
     for v in r["violations"]:
         rep.violations.append({"what": "history rejected by Layer A (TopicTrace) at record %d: %s" % (v["record_index"], v["record"]),
-                               "replay": {"kind": "topic-history", "spec": "topic/TopicTrace", "driver": "topic-seq",
+                               "replay": {"kind": "topic-history", "spec": "topic/TopicTrace", "driver": label,
                                           "first_unmatched_record": v["record_index"], "history": hs[v["history"]]}})
-    if hs:
-        rep.samples.append({"driver": "topic-seq", "history_head": [json.loads(x) for x in hs[0][:14]]})
+    if hs and len(rep.samples) < 4:
+        rep.samples.append({"driver": label, "history_head": [json.loads(x) for x in hs[0][:14]]})
     os.unlink(out)
-    rep.assumptions += ["sequential histories (one thread, futures polled explicitly); publish racing with subscription changes is not scheduled: the topic module uses parking_lot/papaya directly, which the scheduler does not see",
-                        "Layer A (specs/topic/TopicA.tla) is written from the property text"]
+    return r
+
+
+TOPIC_ASSUME = ["topic-seq: sequential histories (one thread, futures polled explicitly); the topic module uses parking_lot/papaya directly, "
+                "which the scheduler does not see, so concurrent topic scenarios (topic-thr) run free under the OS scheduler",
+                "Layer A (specs/topic/TopicA.tla) is written from the property text"]
+
+
+def C08(rep):
+    add_mc(rep, mc_cached("topic", "MC_TopicA", "MC_TopicA_quick.cfg", ["TopicA.tla"], timeout=1800))
+    if rep.tier != "quick":
+        # two topics, three messages: 2.4 M distinct states (two topics with four messages exceed 10^8)
+        add_mc(rep, mc_cached("topic", "MC_TopicA", "MC_TopicA_full.cfg", ["TopicA.tla"], timeout=2400))
+    topic_part(rep, n(rep.tier, 120, 2000))
+    # receiver threads parked in blocking receives (sync, timed, async) while the senders publish and leave
+    topic_part(rep, n(rep.tier, 400, 6000), seed_off=1313, mode="topic-thr")
+    rep.assumptions += TOPIC_ASSUME
 
 
 def _validate_simple(rep, area, module, path, label):
